@@ -23,7 +23,11 @@ public:
   void close(boost::system::error_code& ec) { ec = {}; vk::sock_abort_ops(_r); _r->open = false; _r->connected = false; }
   void cancel(boost::system::error_code& ec) { ec = {}; vk::sock_abort_ops(_r); }
   void cancel() { vk::sock_abort_ops(_r); }
-  void shutdown(shutdown_type, boost::system::error_code& ec) { ec = {}; _r->shut = true; }
+  // after shutdown(both) a pending read ends with eof, later reads report eof and writes a broken pipe (as a TCP socket does)
+  void shutdown(shutdown_type, boost::system::error_code& ec) {
+    ec = {}; _r->shut = true;
+    if (_r->h_read) { _r->rbuf = nullptr; vk::post_completion(std::move(_r->h_read), boost::system::error_code(error::eof), std::size_t(0)); }
+  }
   endpoint_type remote_endpoint(boost::system::error_code& ec) const { ec = _r->connected ? boost::system::error_code{} : boost::system::error_code(error::not_connected); return _ep; }
   template <class Token> auto async_connect(const endpoint_type& ep, Token&& token) {
     return async_initiate<Token, void(boost::system::error_code)>(
@@ -42,6 +46,7 @@ public:
         vk::sock_rec* r = _r;
         mutable_buffer b = *buffer_sequence_begin(buffers);
         if (!r->open || !r->connected) { vk::post_completion(std::move(handler), boost::system::error_code(error::not_connected), std::size_t(0)); return; }
+        if (r->shut) { vk::post_completion(std::move(handler), boost::system::error_code(error::eof), std::size_t(0)); return; }
         // a request to read 0 bytes on a stream socket is a no-op that completes at once (as reactive_socket_service does)
         if (buffer_size(buffers) == 0) { vk::post_completion(std::move(handler), boost::system::error_code{}, std::size_t(0)); return; }
         auto slot = get_associated_cancellation_slot(handler);
@@ -55,6 +60,7 @@ public:
       [this](auto handler, const CB& buffers) {
         vk::world_t& w = vk::world(); vk::sock_rec* r = _r;
         if (!r->open || !r->connected) { vk::post_completion(std::move(handler), boost::system::error_code(error::not_connected), std::size_t(0)); return; }
+        if (r->shut) { vk::post_completion(std::move(handler), boost::system::error_code(error::broken_pipe), std::size_t(0)); return; }
         if (buffer_size(buffers) == 0) { vk::post_completion(std::move(handler), boost::system::error_code{}, std::size_t(0)); return; }
         r->wdata.clear();
         for (auto it = buffer_sequence_begin(buffers); it != buffer_sequence_end(buffers); ++it) {
